@@ -83,10 +83,15 @@ class Parser(BaseParser):
                 m = match(x, stream, i)
                 if m:
                     # Carry over any items still in the scan buffer, to past the end of the ignored items.
-                    delayed_matches[m.end()].extend([(item, i, None) for item in to_scan ])
+                    carried = [(item, i, None) for item in to_scan ]
 
                     # If we're ignoring up to the end of the file, # carry over the start symbol if it already completed.
-                    delayed_matches[m.end()].extend([(item, i, None) for item in columns[i] if item.is_complete and item.s == start_symbol])
+                    carried += [(item, i, None) for item in columns[i] if item.is_complete and item.s == start_symbol]
+
+                    # Don't create an empty bucket (e.g. for an ignore that matches inside a token which is still being
+                    # matched): it would make `delayed_matches` look non-empty and delay the detection of a dead parse.
+                    if carried:
+                        delayed_matches[m.end()].extend(carried)
 
             next_to_scan = self.Set()
             next_set = self.Set()
